@@ -49,7 +49,7 @@ Inductive prog :=
 | PAtom (a : atom) (rest : prog)
 | PBreak | PReturn
 | PCall (f : string) (rest : prog)         (* static call of a translated function *)
-| PIfErr (body rest : prog)                (* if err != nil { body } *)
+| PIfErr (body els rest : prog)            (* if err != nil { body } else { els } *)
 | PIfNL (body rest : prog)                 (* if !stream.isLeading { body } on the loop variable *)
 | PBranch (x y rest : prog)                (* any other if / else, switch *)
 | PFor (body rest : prog)                  (* for _, stream := range m.streams { body } *)
@@ -101,8 +101,8 @@ Section Sem.
 
   (* conditionals: [choose p s body rest]: p is a conditional whose chosen branch is body *)
   Inductive choose : prog -> lstate -> prog -> prog -> Prop :=
-  | C_iferr_skip b r s : choose (PIfErr b r) s PDone r
-  | C_iferr_take b r s : l_failed s = true -> choose (PIfErr b r) s b r
+  | C_iferr_else b e r s : choose (PIfErr b e r) s e r
+  | C_iferr_take b e r s : l_failed s = true -> choose (PIfErr b e r) s b r
   | C_nl_take b r s : l_cur s <> ld -> choose (PIfNL b r) s b r
   | C_nl_skip b r s : l_cur s = ld -> choose (PIfNL b r) s PDone r
   | C_br_l x y r s : choose (PBranch x y r) s x r
@@ -449,9 +449,9 @@ Fixpoint first_mut (p : prog) : option kind :=
   | PAtom (AMut k _) _ => Some k
   | PAtom _ rest => first_mut rest
   | PCall _ rest => first_mut rest
-  | PIfErr b rest | PIfNL b rest | PFor b rest | PNext b rest | PLoop b rest | PFn _ b rest =>
+  | PIfNL b rest | PFor b rest | PNext b rest | PLoop b rest | PFn _ b rest =>
       orelse (first_mut b) (first_mut rest)
-  | PBranch x y rest => orelse (first_mut x) (orelse (first_mut y) (first_mut rest))
+  | PIfErr x y rest | PBranch x y rest => orelse (first_mut x) (orelse (first_mut y) (first_mut rest))
   end.
 
 Definition enter_for (body : prog) (a : astate) : option astate :=
@@ -477,10 +477,10 @@ Fixpoint ai (p : prog) (a : astate) {struct p} : option outs :=
       | Some l' => joinl l' (ai rest)
       | None => None
       end
-  | PIfErr b rest =>
+  | PIfErr b e rest =>
       match a_ph a with
-      | None => join (seqO (ai b a) (contN (ai rest))) (ai rest a)
-      | Some _ => ai rest a
+      | None => join (seqO (ai b a) (contN (ai rest))) (seqO (ai e a) (contN (ai rest)))
+      | Some _ => seqO (ai e a) (contN (ai rest))
       end
   | PIfNL b rest =>
       match a_ph a with
@@ -533,7 +533,7 @@ Fixpoint inl (fuel : nat) (fns : list (string * prog)) : prog -> option prog :=
                   | None => None
                   end
         end
-    | PIfErr b rest => omap2 PIfErr (go b) (go rest)
+    | PIfErr b e rest => match go b with Some b' => omap2 (PIfErr b') (go e) (go rest) | None => None end
     | PIfNL b rest => omap2 PIfNL (go b) (go rest)
     | PBranch x y rest => match go x with Some x' => omap2 (PBranch x') (go y) (go rest) | None => None end
     | PFor b rest => omap2 PFor (go b) (go rest)
@@ -556,8 +556,8 @@ Fixpoint no_nested (inloop : bool) (p : prog) : bool :=
   | PDone | PBreak | PReturn => true
   | PAtom _ rest | PCall _ rest => no_nested inloop rest
   | PFor b rest | PNext b rest => negb inloop && no_nested true b && no_nested inloop rest
-  | PIfErr b rest | PIfNL b rest | PLoop b rest | PFn _ b rest => no_nested inloop b && no_nested inloop rest
-  | PBranch x y rest => no_nested inloop x && no_nested inloop y && no_nested inloop rest
+  | PIfNL b rest | PLoop b rest | PFn _ b rest => no_nested inloop b && no_nested inloop rest
+  | PIfErr x y rest | PBranch x y rest => no_nested inloop x && no_nested inloop y && no_nested inloop rest
   end.
 
 Fixpoint no_mut (p : prog) : bool :=
@@ -565,9 +565,9 @@ Fixpoint no_mut (p : prog) : bool :=
   | PDone | PBreak | PReturn => true
   | PAtom (AMut _ _) _ => false
   | PAtom _ rest | PCall _ rest => no_mut rest
-  | PIfErr b rest | PIfNL b rest | PFor b rest | PNext b rest | PLoop b rest | PFn _ b rest =>
+  | PIfNL b rest | PFor b rest | PNext b rest | PLoop b rest | PFn _ b rest =>
       no_mut b && no_mut rest
-  | PBranch x y rest => no_mut x && no_mut y && no_mut rest
+  | PIfErr x y rest | PBranch x y rest => no_mut x && no_mut y && no_mut rest
   end.
 
 (* the body of a per-stream rotation method must not touch the mutex: only then is AMut one event *)
@@ -577,9 +577,9 @@ Fixpoint lock_free (p : prog) : bool :=
   | PAtom (ALock | AUnlock | ADeferUnlock | AWait) _ => false
   | PAtom _ rest => lock_free rest
   | PCall _ _ => false
-  | PIfErr b rest | PIfNL b rest | PFor b rest | PNext b rest | PLoop b rest | PFn _ b rest =>
+  | PIfNL b rest | PFor b rest | PNext b rest | PLoop b rest | PFn _ b rest =>
       lock_free b && lock_free rest
-  | PBranch x y rest => lock_free x && lock_free y && lock_free rest
+  | PIfErr x y rest | PBranch x y rest => lock_free x && lock_free y && lock_free rest
   end.
 
 Definition a_idle (failed : bool) : astate :=
